@@ -104,5 +104,26 @@ m("c14-nmi-bumps-r",["C14"],"cpu.go","\t\tcpu.PC = 0x0066\n","\t\tcpu.PC = 0x006
 m("c14-reset-helper-writes-ir",["C14","C10"],"z80.go","","// ResetRefresh clears the refresh counter.\nfunc (cpu *CPU) ResetRefresh() { cpu.IR.Lo = 0 }\n",note="an exported helper that lets I/R change other than through LD")
 m("c14-r-update-refactor",["C14","C01"],"cpu.go","cpu.IR.Lo = rc&0x80 | (rc+1)&0x7f","cpu.IR.Lo = rc&0x80 + (rc&0x7f+1)&0x7f",expect="silent",note="equivalent refresh increment")
 
+# ---- C08
+RUNLOOP="\t\tcpu.Step()\n\t\tif cpu.BreakPoints != nil {\n\t\t\tif _, ok := cpu.BreakPoints[cpu.PC]; ok {\n\t\t\t\treturn ErrBreakPoint\n\t\t\t}\n\t\t}\n\t\tif cpu.HALT {\n\t\t\tbreak\n\t\t}\n"
+m("c08-halt-before-breakpoint",["C08"],"cpu.go",RUNLOOP,"\t\tcpu.Step()\n\t\tif cpu.HALT {\n\t\t\tbreak\n\t\t}\n\t\tif cpu.BreakPoints != nil {\n\t\t\tif _, ok := cpu.BreakPoints[cpu.PC]; ok {\n\t\t\t\treturn ErrBreakPoint\n\t\t\t}\n\t\t}\n",note="HALT wins over a breakpoint on the HALT's own address")
+m("c08-while-not-halted",["C08","C13"],"cpu.go","\tcpu.HALT = false\n\tfor {\n","\tfor !cpu.HALT {\n",note="no entry reset and zero Steps possible on a halted CPU")
+m("c08-no-halt-reset",["C08"],"cpu.go","\tcpu.HALT = false\n\tfor {","\tfor {")
+m("c08-executeone-instead-of-step",["C08","C06"],"cpu.go","\t\tcpu.Step()\n\t\tif cpu.BreakPoints != nil {","\t\tcpu.executeOne()\n\t\tif cpu.BreakPoints != nil {",note="Run bypasses interrupt processing")
+m("c08-breakpoint-on-old-pc",["C08"],"cpu.go",RUNLOOP,"\t\tpc := cpu.PC\n\t\tcpu.Step()\n\t\tif cpu.BreakPoints != nil {\n\t\t\tif _, ok := cpu.BreakPoints[pc]; ok {\n\t\t\t\treturn ErrBreakPoint\n\t\t\t}\n\t\t}\n\t\tif cpu.HALT {\n\t\t\tbreak\n\t\t}\n")
+m("c08-run-masks-interrupt",["C08"],"cpu.go","\t\tcpu.Step()\n\t\tif cpu.BreakPoints != nil {","\t\tif cpu.Interrupt != nil && cpu.HALT {\n\t\t\tcpu.Interrupt = nil\n\t\t}\n\t\tcpu.Step()\n\t\tif cpu.BreakPoints != nil {")
+m("c08-halt-set-by-di",["C08","C01"],"op_ctrl.go","func oopDI(cpu *CPU) {\n\tcpu.IFF1 = false","func oopDI(cpu *CPU) {\n\tcpu.HALT = cpu.HALT || !cpu.IFF1 && !cpu.IFF2 && cpu.IM == 3\n\tcpu.IFF1 = false",note="another instruction sets the halted indication in a rare state")
+m("c08-return-nil-refactor",["C08","C13"],"cpu.go","\t\tif cpu.HALT {\n\t\t\tbreak\n\t\t}\n\t}\n\treturn nil","\t\tif cpu.HALT {\n\t\t\treturn nil\n\t\t}\n\t}",expect="silent",note="break replaced by return nil")
+m("c08-bp-lookup-without-nil-test",["C08"],"cpu.go","\t\tif cpu.BreakPoints != nil {\n\t\t\tif _, ok := cpu.BreakPoints[cpu.PC]; ok {\n\t\t\t\treturn ErrBreakPoint\n\t\t\t}\n\t\t}","\t\tif _, ok := cpu.BreakPoints[cpu.PC]; ok {\n\t\t\treturn ErrBreakPoint\n\t\t}",expect="silent",note="lookup in a nil map is fine: redundant nil test removed")
+# ---- C13
+m("c13-no-defer-cancel",["C13"],"cpu.go","\tdefer cancel()\n","\t_ = cancel\n",note="watcher leaks when Run returns on HALT and the caller never cancels")
+m("c13-plain-flag-read",["C13"],"cpu.go","if atomic.LoadInt32(&canceled) != 0 {","if canceled != 0 {")
+m("c13-check-hoisted",["C13","C08"],"cpu.go","\tfor {\n\t\tif atomic.LoadInt32(&canceled) != 0 {\n\t\t\treturn ctxErr\n\t\t}\n","\tif atomic.LoadInt32(&canceled) != 0 {\n\t\treturn ctxErr\n\t}\n\tfor {\n")
+m("c13-flag-before-error",["C13"],"cpu.go","\t\tctxErr = ctx.Err()\n\t\tatomic.StoreInt32(&canceled, 1)","\t\tatomic.StoreInt32(&canceled, 1)\n\t\tctxErr = ctx.Err()")
+m("c13-return-nil-on-cancel",["C13","C08"],"cpu.go","\t\t\treturn ctxErr\n","\t\t\treturn nil\n")
+m("c13-wait-on-parent",["C13"],"cpu.go","\t\t<-ctx2.Done()","\t\t<-ctx.Done()",note="leak when the parent context is never cancelled")
+m("c13-check-every-256-steps",["C13","C08"],"cpu.go","\tfor {\n\t\tif atomic.LoadInt32(&canceled) != 0 {","\tfor n := 0; ; n++ {\n\t\tif n&0xff == 0 && atomic.LoadInt32(&canceled) != 0 {")
+m("c13-poll-ctx-err-refactor",["C13","C08"],"cpu.go","\tvar ctxErr error\n\tvar canceled int32\n\tctx2, cancel := context.WithCancel(ctx)\n\tdefer cancel()\n\tgo func() {\n\t\t<-ctx2.Done()\n\t\tctxErr = ctx.Err()\n\t\tatomic.StoreInt32(&canceled, 1)\n\t}()\n\n\tcpu.HALT = false\n\tfor {\n\t\tif atomic.LoadInt32(&canceled) != 0 {\n\t\t\treturn ctxErr\n\t\t}","\tvar _ = atomic.LoadInt32\n\tcpu.HALT = false\n\tfor {\n\t\tif err := ctx.Err(); err != nil {\n\t\t\treturn err\n\t\t}",expect="silent",note="synchronous polling of ctx.Err(): no goroutine, property holds")
+
 json.dump(M,open("controls.json","w"),indent=1)
 print(len(M),"controls")
